@@ -80,6 +80,7 @@ fn main() {
         "C14" => c14,
         "C15" => c15,
         "C16" => c16,
+        "C19" => c19,
         "C20" => c20,
         "C18" => c18,
     );
